@@ -84,6 +84,8 @@ def run(R, ctx):
     c01.sink_table(R, ctx, 'R19.2')
     c01.swap_rules(_Only(R, 'R01.4', 'R19.3'), ctx)
     c01.index_state_rule(R, ctx, rule='R19.3')
+    # recovery: a missing current file (NotFound at the rename) is tolerated at start AND at rotation, otherwise logging never resumes
+    c01.index_table(Relabel(R, {'R01.5': 'R19.3'}), ctx)
     initialize(R, ctx)
     log_reports(R, ctx, ed)
     panics(R, ctx, sites)
